@@ -18,7 +18,7 @@ RULE = ('request paths assembled from traversal-significant pieces (.., ., %2e%2
         'Unicode look-alikes of . .. / \\ and of existing names (computed from unicodedata: every character some normal form '
         'maps onto them, ignorable characters, fullwidth / other-case names), raw / percent-encoded once / twice, x 7 mountings (add_static_view route, catch-all *subpath route, plain '
         'view on PATH_INFO, plain view with a given request.subpath, a route with a {subpath:.*} placeholder whose matched STRING the traverser splits, '
-        'a view named "static" found by traversal -- also as /@@static/.. and below an X-VHM-ROOT virtual root --, a route with a default '
+        'a view named "static" found by traversal -- also as /@@static/.. and below an X-VHM-ROOT virtual root (the header also on the route mountings) --, a route with a default '
         '{subpath} placeholder = one piece without "/") x filesystem and package-relative roots x optional SCRIPT_NAME x '
         'Accept-Encoding values x content_encodings (package roots given as pkg:dir, as a relative dir with package_name=, and as a '
         'relative dir resolved against the package of the module that creates the view / the Configurator), plus all 6^4 combinations of six core pieces; non-trivial = the '
@@ -35,11 +35,12 @@ ASSUMPTIONS = [
 ]
 TRUSTED = [
     'harness/c16/translate.py: Python ast -> Gallina translator for ten functions of static.py (the seven core functions, '
-    'add_slash_redirect, _compile_content_encodings, __init__ as a record of its attribute stores) and traversal.split_path_info; control-flow '
+    'add_slash_redirect, _compile_content_encodings, __init__ as a record of its attribute stores), traversal.split_path_info, '
+    'asset.resolve_asset_spec, Configurator._make_spec and the spec-normalising first statements of StaticURLInfo.add; control-flow '
     'rules + primitive table, fail closed; stored fallback translation gen_fallback.json when it refuses)',
     'hand-written reference model coq/Model/C16.v (the generated program is proved equal to it); for what is not translated '
     '-- FileResponse, traversal_path_info/decode_path_info, the *subpath / {subpath:.*} / {subpath} route regex, '
-    'asset.resolve_asset_spec, Configurator._make_spec, StaticURLInfo.add (the configuration-time model configure / view_root), '
+    'the rest of StaticURLInfo.add (pinned with the translated statements dropped), '
     'ResourceTreeTraverser.__call__ (which splitter it applies to a str subpath and the @@ view selector are regenerated '
     'facts; the rest is a masked pin), _add_vary -- it is tied by shape pins and regenerated constants',
     'which package creates the view (caller_package(): a stack-depth lookup) is an input of the model stated by the harness; '
@@ -76,8 +77,8 @@ LEVEL_TEXT = ('Machine-checked theorems for every request sequence, every mounti
               'CPython on all 2-byte, (nearly) all 3-byte and structured 4-byte sequences.')
 LEVEL_NOTE = ('Trusted: Coq kernel; the translator (harness/c16/translate.py: its control-flow rules and its primitive table of '
               'about 40 entries, each a claim about Python / os.path / pkg_resources / WebOb / Pyramid semantics); the '
-              'hand-written model of what is not translated (router, traverser, FileResponse, resolve_asset_spec, _make_spec, '
-              'StaticURLInfo.add, _add_vary -- shape-pinned); posixpath/UTF-8/percent models; Python harness and '
+              'hand-written model of what is not translated (router, traverser incl. its X-VHM-ROOT handling, FileResponse, '
+              'the registration part of StaticURLInfo.add, _add_vary -- shape-pinned); posixpath/UTF-8/percent models; Python harness and '
               'oracles.  Which function static_view applies to request.path_info, which function the traverser applies to a '
               '{subpath} string, the view selector, the route remainder regex and the per-instance filemap are regenerated '
               'facts; C16_facts_ok / C16_traverser_facts_ok / C16_filemap_per_instance require the repaired values.')
@@ -281,6 +282,8 @@ def facts(src):
                     problems.append('shape pin (locals blanked, fact masked) %s changed (%s -> %s): the hand-written model '
                                     'follows the previous text' % (k, w, got))
     summary.update(c16facts.check_blind(src, os.path.join(HERE, 'pins_blind.json'), problems))
+    # functions whose first statements are translated: the pin covers the rest
+    summary.update(c16facts.check_tail(src, os.path.join(HERE, 'pins_tail.json'), {'StaticURLInfo.add': 2}, problems))
     summary['response._BLOCK_SIZE'] = c16facts.block_size(src, problems)
     summary.update({k: (v if not isinstance(v, list) else list(v)) for k, v in vals.items()})
     _state_facts.clear()
@@ -509,6 +512,10 @@ def gen_case(rng):
         case['vroot'] = rng.choice(VROOTS)
         if case['path'].startswith('/static/') and rng.random() < 0.8:
             case['path'] = case['path'][len('/static'):]
+    if mount in ROUTED and rng.random() < 0.08:
+        # a virtual root on a ROUTE-mounted view: its first segment is the view name Pyramid looks for -- the route's
+        # unnamed view answers only for '', '/', '/@@', '/.' ...; anything else is a 404, an undecodable header an error
+        case['vroot'] = rng.choice(VROOTS + ['/@@', '/@@', '/@@/x', '/.', '/..', '//', '/@@static', '/x'])
     if rng.random() < 0.15:                       # the application is mounted below a SCRIPT_NAME (deployment-level)
         case['script'] = rng.choice(SCRIPTS)
     case['pre'] = []
@@ -729,7 +736,7 @@ def valid(case):
         if case['mount'] not in MOUNTS or case['root'] not in ROOTS:
             return False
         vr = case.get('vroot')
-        if vr is not None and (case['mount'] != 'traversal' or not isinstance(vr, str) or any(ord(ch) > 255 for ch in vr)):
+        if vr is not None and (case['mount'] in ('view', 'subpath') or not isinstance(vr, str) or any(ord(ch) > 255 for ch in vr)):
             return False
         sc = case.get('script', '')
         if not isinstance(sc, str) or (sc and (not sc.startswith('/') or sc.endswith('/'))) \
